@@ -91,6 +91,8 @@ CASE_TIMEOUT = 90
 
 # labels listed as known findings in /verif/known_findings.d/C42.json (everything else was fixed, see /verif/fixes_ready)
 PENDING = {
+    'c36:str-plus-literal-then-str-accessor:meta-dtype':
+        '(s + "lit").str.upper(): object meta of the concatenation gives a float64 meta for the .str call; computed str/bool',
     'c36:str:split-expand:meta-columns':
         'str.split(n=, expand=True) on a result without rows computes 0 columns; the meta promises n+1',
     'value-dependent-dtype:meta-is-what-pandas-infers-without-data':
@@ -168,7 +170,7 @@ def _column_of(obj, msg):
     return obj if isinstance(obj, pd.Series) else None
 
 
-def facet_of(m, empty_ref=None, full_ref=None):
+def facet_of(m, empty_ref=None, full_ref=None, val=None, parts=None):
     """(facet, message) of meta_violation -> refined facet.
 
     meta-dtype carries the two dtypes, e.g. ``meta-dtype(str->int64)``.  It is called
@@ -192,6 +194,11 @@ def facet_of(m, empty_ref=None, full_ref=None):
                     # a partition deviates from a meta that agrees with pandas (on no data or on all data)
                     if a in (e, f) and b in (e, f):
                         kind = "meta-dtype(value-dependent)"
+                    elif b == "float64" and a in (e, f) and parts is not None:
+                        # a partition holding nothing but missing values: pandas answers float64 for any accessor
+                        col = _column_of(parts[int(re.match(r"partition (\d+): ", msg).group(1))], msg)
+                        if col is not None and len(col) and bool(col.isna().all()):
+                            kind = "meta-dtype(value-dependent)"
                 elif e == a and f == b:
                     kind = "meta-dtype(value-dependent)"
             except Exception:  # noqa: BLE001
@@ -252,11 +259,11 @@ def check(res, val, parts, empty_ref=None, full_ref=None):
 
     m = F.meta_violation(res, val, parts=())
     if m is not None:
-        return facet_of(m, empty_ref, full_ref), m[1]
+        return facet_of(m, empty_ref, full_ref, val, parts), m[1]
     if parts:
         m = F.meta_violation(res, val, parts=parts)
         if m is not None:
-            return facet_of(m, empty_ref, full_ref), m[1]
+            return facet_of(m, empty_ref, full_ref, val, parts), m[1]
     m = public_views_violation(res, val)
     if m is not None:
         return m
@@ -274,6 +281,8 @@ def mechanism_label(case, desc, klass, facet, prefix):
       float64 piece shows up where the meta says bool/str/int (pandas' result of apply on zero rows);
     * ``c36:other:assign:meta-dtype`` - assign of a differently partitioned series (outer alignment adds NaN rows);
     * ``c36:str.len:meta-dtype(float64->int64)`` - int-valued .str method: meta float64 from the NaN in the fake data;
+    * ``c36:str-plus-literal-then-str-accessor:meta-dtype`` - ``(s + "lit").str.upper()``: the concatenation has an object
+      meta, the .str call on it a float64 meta (C36 finding expr-node:AttributeError@StringAccessor.__init__);
     * ``window:cumulative-int:meta-dtype(int64->float64)`` - cumsum/cumprod/... of an int column computes float64."""
     import json
 
@@ -285,10 +294,15 @@ def mechanism_label(case, desc, klass, facet, prefix):
         text = json.dumps(steps)
         if dt and "->float64)" in facet and any(st["op"] == "apply_rows" for st in steps):
             return "c36:apply:axis1:empty-partition:meta-dtype"
-        if dt and klass.startswith("c36:other:assign"):
+        if dt and any(st["op"] == "other" and st.get("mode") == "assign" for st in steps):
             return "c36:other:assign:meta-dtype"
+        if facet.startswith("meta-dtype(float64->") and '["str", "' in text and \
+                any(('["bin", "+", ["lit", "%s"]' % lit) in text or ('["lit", "%s"]]' % lit) in text for lit in ("_s", "p-", "x")):
+            return "c36:str-plus-literal-then-str-accessor:meta-dtype"
         if facet.startswith("meta-dtype(float64->int64)") and '["str", "len"' in json.dumps(steps[-1]):
             return "c36:str.len:meta-dtype(float64->int64)"
+        if klass.startswith("c36:str:split-expand") and facet.startswith("meta-columns"):
+            return "c36:str:split-expand:meta-columns"
     elif desc["class"] == "window" and desc.get("op") == "cum" and facet.startswith("meta-dtype(int64->float64)"):
         return "window:cumulative-int:meta-dtype(int64->float64)"
     return "%s:%s" % (klass, facet)
@@ -331,6 +345,8 @@ def run_case(case, ctx):
             raise
         except Exception as e:  # noqa: BLE001
             return ctx.reject("%s: %s" % (type(e).__name__, str(e)[:60]))
+        if case["src"] == "c36" and desc["uses_meta"] and hasattr(full_ref, "__len__") and len(full_ref) == 0:
+            return ctx.reject("user function on empty data: pandas defines no result dtype for the declared meta")
         try:
             res = run(ddf, True, c["oddf"])
             val, parts = observe(res)
@@ -375,7 +391,8 @@ def run_case(case, ctx):
               "second_frame_partitioning": c.get("odesc"), "rows": len(pdf), "case_seed": case["cs"],
               "meta": repr(getattr(res, "_meta", None))[:300]}
     if case["src"] == "c36":
-        # shortest prefix of the pipeline that already shows the same facet names the operation class
+        # the SHORTEST prefix of the pipeline whose meta already disagrees names the operation class and the facet
+        # (later steps only inherit the disagreement, possibly under another facet)
         from vf.props import c36
 
         k = len(desc["steps"])
@@ -386,15 +403,21 @@ def run_case(case, ctx):
                     r2 = run(ddf, True, c["oddf"], upto=j)
                     v2, p2 = observe(r2)
                     m2 = check(r2, v2, p2)
-                    if m2 is not None and m2[0].startswith("meta-dtype(") and facet.startswith("meta-dtype(value-dependent)"):
-                        o0 = c["opdf"].iloc[:0] if c.get("opdf") is not None else None
-                        m2 = check(r2, v2, p2, run(pdf.iloc[:0], False, o0, upto=j), run(pdf, False, c["opdf"], upto=j))
+                    if m2 is not None and m2[0].startswith("meta-dtype("):
+                        try:
+                            o0 = c["opdf"].iloc[:0] if c.get("opdf") is not None else None
+                            m2 = check(r2, v2, p2, run(pdf.iloc[:0], False, o0, upto=j), run(pdf, False, c["opdf"], upto=j))
+                        except CaseTimeout:
+                            raise
+                        except Exception:  # noqa: BLE001
+                            pass       # pandas cannot run the prefix on empty input: keep the unrefined facet
                 except CaseTimeout:
                     raise
                 except Exception:  # noqa: BLE001
                     continue
-                if m2 is not None and m2[0] == facet:
+                if m2 is not None:
                     k = j
+                    facet, msg = m2
                     break
         fam = c36.family(desc["classes"][k - 1])
         head = c36.expr_heads(desc["steps"][k - 1]) if fam.split(":")[0] in ("series", "filter", "assign") else None
